@@ -1,7 +1,7 @@
 (* C04 dispatch *)
 From Coq Require Import List Arith NArith Bool.
 From AV Require Import Base.Util Base.ITree Spec.Lang Spec.FA Model.Codec Model.Decide Model.Product
-     Model.Build Model.DFAOps.
+     Model.Build Model.DFAOps Model.Minimize.
 Import ListNotations.
 
 Definition dec_bop (t : itree) : option bop :=
@@ -27,11 +27,13 @@ Fixpoint dec_dexpr (fuel : nat) (t : itree) : option dexpr :=
     end
   end.
 
-(* compare an implementation result with the model's: [valid_impl, size_impl, size_model, partial_model, diff] *)
+(* compare an implementation result with the model's:
+   [valid_impl, size_impl, size_model, partial_model, diff, valid_model, minimal size of the model result] *)
 Definition cmp_result (impl : dfa) (r : res dfa) : itree :=
   match r with
   | Ok m => L [I 1%N; L [Ib (valid_dfa impl); In_ (size impl); In_ (size m); Ib (d_partial m);
-                         enc_res (enc_opt enc_nats) (dfa_diff impl m); Ib (valid_dfa m)]]
+                         enc_res (enc_opt enc_nats) (dfa_diff impl m); Ib (valid_dfa m);
+                         enc_res In_ (bind (minify m) (fun r => Ok (size r)))]]
   | Err e => L [I 0%N; In_ (err_code e)]
   end.
 
